@@ -72,6 +72,7 @@ func defaultGen() GenOpts {
 		NoMultiOpts:        true,
 		NoResultGroup:      true,
 		NoMultiAs:          true,
+		NoOptionalFail:     true,
 	}
 }
 
@@ -254,6 +255,10 @@ func (g *gen) genConfig() *Config {
 		// dependencies
 		r.ParamObj = g.p(StCfg, o.PParamObj)
 		ndeps := g.n(StCfg, o.MaxDeps+1)
+		if r.Form == FInstance {
+			ndeps = 0
+			r.ParamObj = false
+		}
 		for j := 0; j < ndeps; j++ {
 			switch {
 			case g.p(StCfg, o.PBuiltinDep):
@@ -442,6 +447,11 @@ func (g *gen) excludeShapes(c *Config) {
 							drop = true
 						}
 					}
+				}
+				if o.NoOptionalFail && d.Optional && !t.Missing && !t.Builtin && d.Group == "" {
+					// owned by C15's known finding: an optional field swallows the
+					// failure of a registered service. Elsewhere such edges are required.
+					d.Optional = false
 				}
 				if drop {
 					changed = true
